@@ -52,7 +52,16 @@ func (s *fileMetadata) Load(vbIds []uint16, bucketUUID string) (*wrapper.Concurr
 			return nil, exist, err
 		}
 	} else {
-		_ = state.UnmarshalJSON(file)
+		if err := state.UnmarshalJSON(file); err != nil {
+			return nil, exist, err
+		}
+
+		// a vBucket that was not assigned to this member at the last save has no entry yet
+		for _, vbID := range vbIds {
+			if _, ok := state.Load(vbID); !ok {
+				state.Store(vbID, models.NewEmptyCheckpointDocument(bucketUUID))
+			}
+		}
 	}
 
 	return state, exist, nil
